@@ -26,18 +26,25 @@ RULE = ("random ADMGs with 1-5 nodes (quick: mostly <=4) x conjunctions of 1-4 c
         "has >= 2 conjuncts, at least one counterfactual world, the graph has an edge, and the construction merged at "
         "least one node pair or reported 'inconsistent'.")
 ASSUMPTIONS = [
-    "probability clauses (P(event') = P(event); 'inconsistent' => P(event) = 0 in every model) are NOT theorems: the Lean "
-    "development proves them only in the parts listed in Props/C18.lean (inconsistency of a merged pair carrying two values "
-    "=> probability 0 GIVEN the pair is the same random variable; see the OPEN block); they are decided here by "
-    "correspondence + exact evaluation on sampled functional SCMs (8 models per case, cardinalities 2-3)",
-    "Python iterates over `worlds` (a set of frozensets): modelled as a list in an explicit order; the structural theorems "
-    "hold for every order; the harness forces the real code through every permutation (cg.extract_interventions patched "
-    "to return an ordered list) and also runs it unpatched",
-    "the input graph is a graph over plain variables (the model's input type is MG Name); graphs whose nodes are "
-    "counterfactual variables raise TypeError in the real code and are outside the model",
-    "theorems assume what NxMixedGraph.from_edges guarantees (MG.WF) and, for acyclicity, an acyclic input graph",
+    "the probability clauses are theorems about the model (Props/C18.lean cg_prob): for every functional SCM compatible with "
+    "the graph (Spec/Fscm.lean: finitely many independent exogenous variables with rational pmfs, mechanisms read parents in G, "
+    "noise shared only along bidirected edges; latents with parents and continuous variables are outside the class), "
+    "P(event') = P(event) and 'inconsistent' => P(event) = 0. Side condition not proved here: the nodes are processed "
+    "parents-first (`hpf`: what networkx's topological_sort returns; the model's topological_sort is compared with networkx "
+    "on every C14 run, its correctness theorem belongs to C14)",
+    "the theorems are about the hand-written model; that the model is cg.py is the correspondence check of this run "
+    "(every order of the worlds; sampling, not proof); the exact evaluation on sampled functional SCMs is an independent "
+    "second line (it is what found the NetworkXError defect ce3041e)",
+    "Python iterates over `worlds` (a set of frozensets): modelled as a list in an explicit order; every theorem holds for "
+    "every order; the harness forces the real code through every permutation (cg.extract_interventions patched to return an "
+    "ordered list) and also runs it unpatched",
+    "the input graph is a graph over plain variables without self-loop edges (the model's input type is MG Name); graphs whose "
+    "nodes are counterfactual variables raise TypeError in the real code and are outside the model",
+    "Spec/Fscm.lean (the definition of the probability of a counterfactual event that the theorems are about) and the Python "
+    "oracle are two independent implementations of the same semantics; they are compared exactly on random models and events "
+    "on every run (cases of kind 'spec')",
 ]
-EXHAUSTIVE = {"quick": False, "thorough": False}
+EXHAUSTIVE = {"quick": False, "thorough": True}   # thorough: every graph on <=2 nodes x every event with <=2 conjuncts
 LEANCHECK_MODULES = ["Y0.Model.Cg", "Y0.Props.C18"]
 
 X, W, Y, D, Z = 3, 2, 4, 0, 5   # names chosen so that int order == alphabetical order D < W < X < Y < Z
@@ -65,7 +72,7 @@ CORPUS = [
 def cases(rng: random.Random, tier: str):
     out = [dict(c, seed=1000 + i) for i, c in enumerate(CORPUS)]
     out += K.load_corpus("C18")
-    n = 900 if tier == "quick" else 9000
+    n = 2500 if tier == "quick" else 9000
     for _ in range(n):
         big = rng.random() < (0.15 if tier == "quick" else 0.3)
         g = K.rand_admg(rng, 1, 5 if big else 4)
@@ -81,6 +88,12 @@ def cases(rng: random.Random, tier: str):
             c["event"] = K.sort_event(ev + [[K.mkvar(9, ev[0][0][4]), "m"]])
             c["malformed"] = "outside"
         out.append(c)
+    if tier == "thorough":
+        out += K.exhaustive_event_cases(2, 2)
+    # the Python oracle against the Lean SPECIFICATION of "probability of a counterfactual event" (Y0/Spec/Fscm.lean)
+    for _ in range(40 if tier == "quick" else 400):
+        g = K.rand_admg(rng, 1, 4)
+        out.append({"kind": "spec", "g": g, "event": K.rand_event(rng, g, max_worlds=3, max_items=3), "seed": rng.randrange(1 << 30)})
     return out
 
 
@@ -178,7 +191,19 @@ def _semantic(case, res, exc=None):
     return None if w is None else f"relabelled event {new_ev} has another probability than the event: {w}"
 
 
+def _spec_model(case):
+    rng = random.Random(case["seed"])
+    g = case["g"]
+    m = S.Fscm(G.all_nodes(g), g["di"], g["bi"], rng, max_card=rng.choice([2, 3]))
+    return m, S.rand_nu(m, rng)
+
+
 def run_python(case):
+    if case.get("kind") == "spec":
+        m, nu = _spec_model(case)
+        p = m.prob(S.event_items(case["event"], nu))
+        return {"out": ["prob", str(p.numerator), str(p.denominator)], "fail": None, "nontrivial": 0 < p < 1,
+                "tags": {"spec_crosscheck": True}}
     strategies = K.strategies_for(case["event"])
     r0, exc0 = _run_real(case, None)
     by_order = []
@@ -222,6 +247,9 @@ def run_python(case):
 
 
 def request(case):
+    if case.get("kind") == "spec":
+        m, nu = _spec_model(case)
+        return C.enc(["cf", "fscm_prob", S.model_sexp(m), S.nu_sexp(nu), case["event"]])
     g = case["g"]
     gs = C.graph_sexp(g["nodes"], g["di"], g["bi"])
     return C.enc(["cf", "make_cg_all", gs, case["event"], [[r, k] for r, k in K.strategies_for(case["event"])]])
@@ -239,10 +267,14 @@ def _canon_one(rep):
 def canon_model(case, rep):
     if rep[0] != "ok":
         return ["model-error", rep]
+    if case.get("kind") == "spec":
+        return ["prob", rep[1], rep[2]]
     return ["orders", [_canon_one(r) for r in rep[1:]]]
 
 
 def shrink(case):
+    if case.get("kind") == "spec":
+        return
     yield from K.shrink_event_case(case, keys=("event",))
 
 
@@ -251,16 +283,19 @@ def finding_key(case, res):
 
 
 MANIFEST = {
-    "text": ("Partial proof. Lean theorems about the executable model of cg.py (Y0/Model/Cg.lean), for every graph, event and "
-             "every iteration order of the worlds: the returned counterfactual graph is acyclic when the input graph is, "
-             "its nodes are exactly the ancestors of the relabelled event, every relabelled event variable is a node, every "
-             "node is a copy V or V_w of a graph variable and every directed edge projects to an edge of the input graph "
-             "(invariants carried through the Lemma-24/25 merge loop); totality / error taxonomy (the only errors are a cyclic "
-             "input and an event variable that is not in the parallel-worlds graph). The two probability clauses "
-             "(P(event') = P(event); 'inconsistent' only for probability-zero events) have NO full theorem: they rest on the "
-             "correspondence check plus exact evaluation of both events in sampled functional SCMs with shared noise."),
+    "text": ("Proof. Lean theorems about the executable model of cg.py (Y0/Model/Cg.lean), for every graph, event and every "
+             "iteration order of the worlds. Probability clauses (cg_prob): for EVERY functional SCM compatible with the graph "
+             "and all base values, the relabelled event has the same probability as the original event and 'inconsistent' is "
+             "returned only if that probability is 0; Lemma 24 of Shpitser-Pearl is proved for the test as coded "
+             "(lemma24_of_test) from the structural equation of functional SCMs, with two invariants carried through the "
+             "Lemma-24/25 merge loop (every parent of every un-intervened node is represented by a parent node of equal value; "
+             "every prefix-restricted support of the event is unchanged). Structure: the construction is total on acyclic "
+             "graphs, the returned graph is acyclic, its nodes are exactly the ancestors (inside it) of the relabelled event, "
+             "every relabelled event variable is a node, every directed edge lies over an edge of the input graph. One side "
+             "condition of cg_prob is assumed, not proved: nodes are processed parents-first (topological_sort)."),
     "note": ("Trusted: Lean kernel + the three standard axioms; the hand-written model tied to cg.py by differential testing "
-             "under every order of the worlds set; Spec/Fscm.lean (functional SCMs) is read, not verified. The probability "
-             "clauses are sampled (8 random models per case, exact rationals), not proved."),
-    "technique": "Lean 4 theorems (invariants through a fold) + differential correspondence under all set-iteration orders + exact-rational functional-SCM oracle",
+             "under every order of the worlds set (sampling); Spec/Fscm.lean (functional SCMs with shared noise: the model class "
+             "is discrete, independent root latents) is read, not verified, and is cross-checked against the independent Python "
+             "evaluator on every run. One defect found and fixed (ce3041e)."),
+    "technique": "Lean 4 theorems (loop invariants, structural equation, Lemma 24 for the coded test) + differential correspondence under all set-iteration orders + exact-rational functional-SCM oracle",
 }
